@@ -406,3 +406,241 @@ pub fn gen_id_start(r: &mut Rng) -> Option<(i32, Vec<i32>)> {
 fn first_non_op_after(_steps: &[Step], pos: usize) -> usize {
     pos
 }
+
+/// Family STREAM: call sequences over next/finish/state (including calls after the end and
+/// repeated finish) against generated item sequences; direct, EntriesOnly and `search()`.
+pub fn gen_stream(seed: u64) -> Scenario {
+    let mut r = Rng::new(seed);
+    let mut sc = Scenario::new("STREAM");
+    sc.knobs = gen_knobs(&mut r, false);
+    sc.knobs.yield_pm = 0;
+    let timed_run = r.chance(1, 4);
+    if timed_run {
+        // delivery time must equal emission time for the timing model
+        sc.knobs.net_delay_max_ms = 0;
+    }
+    let nclients = if r.chance(1, 4) { 2 } else { 1 };
+    for c in 0..nclients {
+        let mut cs = ClientScript::default();
+        let episodes = 1 + r.usize(3);
+        for ep in 0..episodes {
+            let tok = format!("c{c}e{ep}");
+            let max_items = *r.pick(&[0, 1, 3, 6, 12]);
+            let timeout = if timed_run && r.chance(2, 3) { Some(*r.pick(&[10u64, 100])) } else { None };
+            let mut plan = gen_items_plan(&mut r, &tok, max_items, true, if timeout.is_some() { &[0] } else { &[0, 0, 1, 4] });
+            if let (Some(t), ReplyPlan::Items { items, done, .. }) = (timeout, &mut plan) {
+                // at most one late position
+                if r.chance(3, 4) {
+                    let k = r.usize(items.len() + 1);
+                    if k < items.len() {
+                        items[k].gap_ms = 5 * t;
+                    } else if let Some(d) = done {
+                        d.gap_ms = 5 * t;
+                    }
+                }
+            }
+            let n_items = match &plan {
+                ReplyPlan::Items { items, .. } => items.len(),
+                _ => 0,
+            };
+            sc.plan.by_token.insert(tok.clone(), plan);
+            let mods = Mods { timeout_ms: timeout, controls: gen_req_ctrls(&mut r, "q"), opts: None };
+            match r.below(5) {
+                0 if timeout.is_none() => {
+                    cs.steps.push(Step::Op { token: tok.clone(), op: OpSpec::Search(simple_search(&tok, &mut r)), mods, cancel_after_polls: None });
+                }
+                k => {
+                    let adapter = if k % 2 == 0 { Adapter::Direct } else { Adapter::EntriesOnly };
+                    let slot = ep;
+                    cs.steps.push(Step::Open { token: tok.clone(), slot, search: simple_search(&tok, &mut r), adapter, mods });
+                    let calls = r.usize(17);
+                    // bias: often read exactly to the end first
+                    let read_first = if r.chance(1, 2) { n_items + 1 } else { 0 };
+                    for _ in 0..read_first.min(16) {
+                        cs.steps.push(Step::Next { slot, cancel_after_polls: None });
+                    }
+                    for _ in 0..calls.saturating_sub(read_first).max(1) {
+                        match r.below(10) {
+                            0..=4 => cs.steps.push(Step::Next { slot, cancel_after_polls: None }),
+                            5..=6 => cs.steps.push(Step::State { slot }),
+                            7..=8 => cs.steps.push(Step::Finish { slot }),
+                            _ => {
+                                if timeout.is_none() {
+                                    cs.steps.push(Step::Sleep { ms: r.below(6) })
+                                } else {
+                                    cs.steps.push(Step::State { slot })
+                                }
+                            }
+                        }
+                    }
+                    if r.chance(1, 2) {
+                        cs.steps.push(Step::Finish { slot });
+                        cs.steps.push(Step::State { slot });
+                    }
+                }
+            }
+        }
+        sc.clients.push(cs);
+    }
+    sc
+}
+
+/// Family LEAK: long histories of every lifecycle with quiescent checkpoints (barriers).
+pub fn gen_leak(seed: u64) -> Scenario {
+    let mut r = Rng::new(seed);
+    let mut sc = Scenario::new("LEAK");
+    sc.knobs = gen_knobs(&mut r, false);
+    // timing model: delivery time = emission time
+    sc.knobs.net_delay_max_ms = 0;
+    let nclients = 1 + r.usize(3);
+    let rounds = 1 + r.usize(5);
+    let mut scripts: Vec<ClientScript> = (0..nclients).map(|_| ClientScript::default()).collect();
+    let mut late_tokens: Vec<(String, u64)> = vec![];
+    let mut slot_ctr = vec![0usize; nclients];
+    for round in 0..rounds {
+        // optional in-flight abandon between client 0 and client 1
+        let inflight = nclients >= 2 && r.chance(1, 3);
+        for c in 0..nclients {
+            let n = 1 + r.usize(5);
+            if inflight && c == 0 {
+                let tok = format!("r{round}c0x");
+                let op = gen_single_op(&mut r, &tok);
+                sc.plan.by_token.insert(tok.clone(), ReplyPlan::Silent);
+                scripts[0].steps.push(Step::Op { token: tok, op, mods: Mods::default(), cancel_after_polls: None });
+            }
+            if inflight && c == 1 {
+                scripts[1].steps.push(Step::Sleep { ms: 5 });
+                scripts[1].steps.push(Step::Op {
+                    token: format!("r{round}c1ab"),
+                    op: OpSpec::Abandon(IdRef::Token(format!("r{round}c0x"))),
+                    mods: Mods::default(),
+                    cancel_after_polls: None,
+                });
+            }
+            for k in 0..n {
+                let tok = format!("r{round}c{c}k{k}");
+                match r.below(100) {
+                    0..=24 => {
+                        // completed / failed single operation
+                        let op = gen_single_op(&mut r, &tok);
+                        let plan = gen_single_plan(&mut r, &op, &tok, &[0, 0, 1, 3], true);
+                        sc.plan.by_token.insert(tok.clone(), plan);
+                        scripts[c].steps.push(Step::Op { token: tok.clone(), op, mods: Mods::default(), cancel_after_polls: None });
+                        if r.chance(1, 4) {
+                            // abandon of a finished operation
+                            scripts[c].steps.push(Step::Op {
+                                token: format!("{tok}ab"),
+                                op: OpSpec::Abandon(IdRef::Token(tok)),
+                                mods: Mods::default(),
+                                cancel_after_polls: None,
+                            });
+                        }
+                    }
+                    25..=39 => {
+                        // timed-out single operation, late reply afterwards, sometimes abandoned
+                        let op = gen_single_op(&mut r, &tok);
+                        let t = *r.pick(&[5u64, 50]);
+                        sc.plan.by_token.insert(tok.clone(), ReplyPlan::Silent);
+                        scripts[c].steps.push(Step::Op { token: tok.clone(), op, mods: Mods { timeout_ms: Some(t), ..Default::default() }, cancel_after_polls: None });
+                        if r.chance(1, 2) {
+                            late_tokens.push((tok.clone(), t + 1 + r.below(30)));
+                        }
+                        if r.chance(1, 3) {
+                            scripts[c].steps.push(Step::Op {
+                                token: format!("{tok}ab"),
+                                op: OpSpec::Abandon(IdRef::Token(tok)),
+                                mods: Mods::default(),
+                                cancel_after_polls: None,
+                            });
+                        }
+                    }
+                    40..=54 => {
+                        // search()
+                        let plan = gen_items_plan(&mut r, &tok, 4, true, &[0, 0, 1]);
+                        sc.plan.by_token.insert(tok.clone(), plan);
+                        scripts[c].steps.push(Step::Op { token: tok.clone(), op: OpSpec::Search(simple_search(&tok, &mut r)), mods: Mods::default(), cancel_after_polls: None });
+                    }
+                    55..=89 => {
+                        // stream: direct or adapted; read to the end or finished early; finished once or twice
+                        let plan = gen_items_plan(&mut r, &tok, 4, true, &[0, 0, 1]);
+                        let n_items = match &plan {
+                            ReplyPlan::Items { items, .. } => items.len(),
+                            _ => 0,
+                        };
+                        sc.plan.by_token.insert(tok.clone(), plan);
+                        let adapter = if r.chance(1, 2) { Adapter::Direct } else { Adapter::EntriesOnly };
+                        let slot = slot_ctr[c];
+                        slot_ctr[c] += 1;
+                        scripts[c].steps.push(Step::Open { token: tok.clone(), slot, search: simple_search(&tok, &mut r), adapter, mods: Mods::default() });
+                        let reads = if r.chance(1, 2) { n_items + 1 } else { r.usize(n_items + 1) };
+                        for _ in 0..reads {
+                            scripts[c].steps.push(Step::Next { slot, cancel_after_polls: None });
+                        }
+                        scripts[c].steps.push(Step::Finish { slot });
+                        if r.chance(1, 4) {
+                            scripts[c].steps.push(Step::Finish { slot });
+                        }
+                        if r.chance(1, 4) {
+                            scripts[c].steps.push(Step::Op {
+                                token: format!("{tok}ab"),
+                                op: OpSpec::Abandon(IdRef::Token(tok)),
+                                mods: Mods::default(),
+                                cancel_after_polls: None,
+                            });
+                        }
+                        if r.chance(1, 2) {
+                            scripts[c].steps.push(Step::DropStream { slot });
+                        }
+                    }
+                    _ => {
+                        // timed-out stream (per-item timeout), then finish
+                        let t = 10u64;
+                        let mut plan = gen_items_plan(&mut r, &tok, 3, true, &[0]);
+                        if let ReplyPlan::Items { items, done, .. } = &mut plan {
+                            let k = r.usize(items.len() + 1);
+                            if k < items.len() {
+                                items[k].gap_ms = 5 * t;
+                            } else if let Some(d) = done {
+                                d.gap_ms = 5 * t;
+                            }
+                        }
+                        sc.plan.by_token.insert(tok.clone(), plan);
+                        let slot = slot_ctr[c];
+                        slot_ctr[c] += 1;
+                        let adapter = if r.chance(1, 2) { Adapter::Direct } else { Adapter::EntriesOnly };
+                        scripts[c].steps.push(Step::Open {
+                            token: tok.clone(),
+                            slot,
+                            search: simple_search(&tok, &mut r),
+                            adapter,
+                            mods: Mods { timeout_ms: Some(t), ..Default::default() },
+                        });
+                        for _ in 0..5 {
+                            scripts[c].steps.push(Step::Next { slot, cancel_after_polls: None });
+                        }
+                        scripts[c].steps.push(Step::Finish { slot });
+                    }
+                }
+            }
+            scripts[c].steps.push(Step::Barrier);
+        }
+    }
+    for (tok, after) in late_tokens {
+        sc.plan.unsolicited.push(Unsol { at_ms: after, id: UnsolId::OfToken(tok.clone()), op: RespOp::Result { tag: 7, res: gen_result(&mut r, &format!("late:{tok}")) }, ctrls: None });
+    }
+    let toks: Vec<String> = vec![];
+    sc.plan.unsolicited.extend(gen_unsolicited(&mut r, 100, &toks));
+    sc.clients = scripts;
+    sc.id_table = gen_id_start(&mut r);
+    if let Some((_, phantoms)) = &mut sc.id_table {
+        // sometimes a few phantom IDs count as in use for the whole run
+        if r.chance(1, 3) {
+            for _ in 0..1 + r.usize(3) {
+                phantoms.push(1 + r.below(2147483646) as i32);
+            }
+        }
+    }
+    let start = sc.id_table.as_ref().map(|t| t.0 as i64).unwrap_or(0);
+    keep_ids_apart(&mut sc, start);
+    sc
+}
